@@ -98,11 +98,31 @@ func TestVerifLoadReplay(t *testing.T) {
 		os.Chdir(root)
 		os.RemoveAll(filepath.Join(root, "corp"))
 		os.MkdirAll(filepath.Join(root, "corp"), 0755)
+		os.RemoveAll(filepath.Join(root, "store"))
+		content := func(f ldFile) []byte { // what the file holds at the (last) load
+			if v.Mode == "preempty" || v.Mode == "reloadempty" {
+				return nil
+			}
+			return ldContent(f)
+		}
 		write := func(version string) {
-			for _, f := range v.Files {
+			for i, f := range v.Files {
 				d := filepath.Join(append([]string{root, "corp"}, f.Dir...)...)
 				os.MkdirAll(d, 0755)
-				ioutil.WriteFile(filepath.Join(d, f.Name), append([]byte(version), ldContent(f)...), 0644)
+				data := append([]byte(version), content(f)...)
+				if version != "" {
+					data = append([]byte(version), ldContent(f)...)
+				}
+				if v.Mode == "links" {
+					os.MkdirAll(filepath.Join(root, "store"), 0755)
+					target := filepath.Join(root, "store", fmt.Sprintf("text%d", i))
+					ioutil.WriteFile(target, data, 0644)
+					os.Remove(filepath.Join(d, f.Name))
+					if os.Symlink(target, filepath.Join(d, f.Name)) == nil {
+						continue
+					}
+				}
+				ioutil.WriteFile(filepath.Join(d, f.Name), data, 0644)
 			}
 		}
 		dir := map[string]string{"plain": "corp", "trailing": "corp/", "dot": "./corp", "dottrailing": "./corp/", "absolute": filepath.Join(root, "corp"),
@@ -133,12 +153,12 @@ func TestVerifLoadReplay(t *testing.T) {
 			}
 		}
 		switch v.Mode {
-		case "pre": // the keys of the tree, and a foreign one, already hold other documents
+		case "pre", "preempty": // the keys of the tree, and a foreign one, already hold other documents
 			for _, k := range v.Keys {
 				c.AddContent(k[0], k[1], k[2], []byte("older words registered under this key before the directory was loaded\n"))
 			}
 			c.AddContent("License", "zz", "pre.txt", []byte(ldForeign))
-		case "reload": // the directory was loaded before, then its files were edited
+		case "reload", "reloadempty": // the directory was loaded before, then its files were edited (or emptied)
 			write("earlier edition of this file ")
 			load()
 		}
@@ -155,7 +175,7 @@ func TestVerifLoadReplay(t *testing.T) {
 				want = append(want, strings.Join(k, "/"))
 			}
 			sort.Strings(want)
-			if v.Mode == "pre" {
+			if v.Mode == "pre" || v.Mode == "preempty" {
 				want = append(want, "License/zz/pre.txt")
 				sort.Strings(want)
 			}
@@ -165,18 +185,21 @@ func TestVerifLoadReplay(t *testing.T) {
 			} else {
 				// equivalence with AddContent: same Match results on every file's content
 				c2 := NewClassifier(0.8)
-				if v.Mode == "pre" {
+				if v.Mode == "pre" || v.Mode == "preempty" {
 					c2.AddContent("License", "zz", "pre.txt", []byte(ldForeign))
 				}
 				for _, f := range v.Files {
 					if len(f.Dir) == 2 && strings.HasSuffix(f.Name, "txt") {
-						c2.AddContent(f.Dir[0], f.Dir[1], f.Name, ldContent(f))
+						c2.AddContent(f.Dir[0], f.Dir[1], f.Name, content(f))
 					}
 				}
 				for _, f := range v.Files {
-					in := append(append([]byte("zzqxv qqzzk\n"), ldContent(f)...), []byte("xqzvv\n")...)
-					if a, b := ldProject(c.Match(in)), ldProject(c2.Match(in)); a != b {
-						class, why = "match", fmt.Sprintf("Match differs on content of %v: loaded %s, AddContent %s", f, a, b)
+					ins := [][]byte{ldContent(f), append([]byte("earlier edition of this file "), ldContent(f)...), []byte("older words registered under this key before the directory was loaded\n")}
+					for _, x := range ins { // what the files hold, what they held at the first load, what the keys held before
+						in := append(append([]byte("zzqxv qqzzk\n"), x...), []byte("xqzvv\n")...)
+						if a, b := ldProject(c.Match(in)), ldProject(c2.Match(in)); a != b {
+							class, why = "match", fmt.Sprintf("Match differs on %q (file %v): loaded %s, AddContent %s", x[:vuMin(len(x), 40)], f, a, b)
+						}
 					}
 				}
 			}
